@@ -2,9 +2,11 @@
 EXTENDS Layouts, Json, IOUtils
 ASSUME \A k \in DOMAIN Layout : WellFormed(Layout[k]) /\ LitFits(Layout[k])
 ASSUME UnitTableTotal
+ASSUME \A k \in DOMAIN Layout : FillFits(Layout[k])
 ASSUME \A f \in LoadFormats : \A i, j \in 1..Len(Loads[f]) : i # j => Loads[f][i].key # Loads[f][j].key
 ASSUME IF "OUT_FILE" \in DOMAIN IOEnv
-       THEN JsonSerialize(IOEnv.OUT_FILE, [layout |-> [k \in DOMAIN Layout |-> Layout[k]], loads |-> [f \in LoadFormats |-> Loads[f]]])
+       THEN JsonSerialize(IOEnv.OUT_FILE, [layout |-> [k \in DOMAIN Layout |-> Layout[k]], loads |-> [f \in LoadFormats |-> Loads[f]],
+                              fills |-> [k \in DOMAIN Layout |-> Fills(Layout[k])]])
        ELSE TRUE
 \* a fixed-width record as a (tiny) state machine: the cursor walks the fields; every column is covered exactly once
 VARIABLES rec, pos, col
